@@ -42,6 +42,9 @@ type unit struct {
 	captures map[string]string
 	// a VALUE receiver that is data (a slice type): every function takes it as its first parameter, named recv
 	recvParam string
+	// struct types whose literals are translated field by field into a Lean structure instance (absent fields keep the
+	// structure's defaults = Go's zero values); all other literals are named constants (lit_T_...)
+	structLits map[string]bool
 }
 
 var units = map[string]*unit{
@@ -101,6 +104,13 @@ func init() {
 		name: "GoLiveCfg", file: "config.go", recv: "atomicCircuitConfig", funcs: []string{"reset"},
 		imports: []string{"CircuitModel.GoLiveCfgPrims"}, open: []string{"CM", "CM.Go", "CM.GoLiveCfg"}, vars: "", monad: "LM",
 		types: map[string]string{"Config": "GoConfig"},
+	}
+	units["GoStream"] = &unit{
+		name: "GoStream", file: "metriceventstream/metriceventstream.go", recv: "", funcs: []string{"collectCommandMetrics", "generateLatencyTimings"},
+		imports: []string{"CircuitModel.GoStreamPrims"}, open: []string{"CM", "CM.Go", "CM.GoStream"}, vars: "", monad: "EM",
+		types: map[string]string{"*circuit.Circuit": "CircH", "*streamCmdMetric": "streamCmdMetric", "streamCmdLatency": "streamCmdLatency",
+			"faststats.SortedDurations": "Snap"},
+		structLits: map[string]bool{"streamCmdMetric": true, "streamCmdLatency": true},
 	}
 	fan := func(name, recv, ns, elem string, funcs []string) {
 		monad := "XM"
@@ -242,8 +252,13 @@ func (t *tr) expr(e ast.Expr) string {
 	case *ast.ParenExpr:
 		return t.expr(x.X)
 	case *ast.BasicLit:
-		if x.Kind == token.INT {
+		switch x.Kind {
+		case token.INT, token.FLOAT:
 			return x.Value
+		case token.STRING:
+			if strings.HasPrefix(x.Value, "\"") && !strings.ContainsAny(x.Value[1:len(x.Value)-1], "\\\"") {
+				return x.Value
+			}
 		}
 		bad(e, "literal kind")
 	case *ast.Ident:
@@ -313,12 +328,14 @@ func (t *tr) expr(e ast.Expr) string {
 			return "(decide (" + t.atom(x.X) + " " + x.Op.String() + " " + t.atom(x.Y) + "))"
 		case token.ADD, token.SUB, token.MUL:
 			return "(" + t.atom(x.X) + " " + x.Op.String() + " " + t.atom(x.Y) + ")"
+		case token.QUO:
+			return "(goDiv " + t.atom(x.X) + " " + t.atom(x.Y) + ")" // Go's integer division truncates; the primitives say so
 		}
 		bad(e, "binary operator")
 	case *ast.SelectorExpr:
 		root, path, ok := flatten(x)
 		if !ok {
-			bad(e, "selector root")
+			return paren(t.expr(x.X)) + ".f_" + x.Sel.Name // a field of a computed value
 		}
 		switch {
 		case root.Name == t.recvVar && t.recvVar != "":
@@ -418,11 +435,35 @@ func paren(s string) string {
 
 // &T{k: literal, ...}: the name carries the type and every literal (non-string) field
 func (t *tr) composite(cl *ast.CompositeLit) string {
-	id, ok := cl.Type.(*ast.Ident)
-	if !ok {
+	var tname string
+	switch ty := cl.Type.(type) {
+	case *ast.Ident:
+		tname = ty.Name
+	case *ast.SelectorExpr:
+		if p, ok := ty.X.(*ast.Ident); ok && t.pkgs[p.Name] {
+			tname = p.Name + "_" + ty.Sel.Name
+		}
+	}
+	if tname == "" {
 		bad(cl, "composite literal type")
 	}
-	name := "lit_" + id.Name
+	if t.u.structLits[tname] {
+		// field by field, in source order (Go evaluates the values in that order)
+		var fs []string
+		for _, el := range cl.Elts {
+			kv, ok := el.(*ast.KeyValueExpr)
+			if !ok {
+				bad(cl, "positional composite literal")
+			}
+			k, ok := kv.Key.(*ast.Ident)
+			if !ok {
+				bad(cl, "composite literal key")
+			}
+			fs = append(fs, lname(k.Name)+" := "+t.expr(kv.Value))
+		}
+		return "({ " + strings.Join(fs, ", ") + " } : " + tname + ")"
+	}
+	name := "lit_" + tname
 	for _, el := range cl.Elts {
 		kv, ok := el.(*ast.KeyValueExpr)
 		if !ok {
